@@ -11,20 +11,21 @@ import (
 
 // Conn is the broker-side end of an in-memory connection.
 type Conn struct {
-	mu        sync.Mutex
-	cond      *sync.Cond
-	in        []byte // bytes fed by the client, not yet read by the broker
-	eof       bool   // client closed its side
-	eofWith   bool   // deliver EOF together with the last bytes (n>0, io.EOF)
-	closed    bool   // broker called Close
-	out       []byte // bytes written by the broker
-	closedCh  chan struct{}
-	MaxRead   int // if >0, at most this many bytes per Read
-	Writes    int
-	WriteHook func(p []byte) // optional, called with every broker write (under lock)
-	addr      net.Addr
-	failWrites   bool
-	FailedWrites int
+	mu            sync.Mutex
+	cond          *sync.Cond
+	in            []byte // bytes fed by the client, not yet read by the broker
+	eof           bool   // client closed its side
+	eofWith       bool   // deliver EOF together with the last bytes (n>0, io.EOF)
+	closed        bool   // broker called Close
+	out           []byte // bytes written by the broker
+	closedCh      chan struct{}
+	MaxRead       int // if >0, at most this many bytes per Read
+	Writes        int
+	WriteHook     func(p []byte)   // optional, called with every broker write (under lock)
+	AfterWrite    func(writes int) // optional, called after every broker write, without the lock
+	addr          net.Addr
+	failWrites    bool
+	FailedWrites  int
 	stallWrites   bool
 	BlockedWrites int // writers currently waiting in a stalled Write
 }
@@ -123,6 +124,13 @@ func (c *Conn) Write(p []byte) (int, error) {
 		c.WriteHook(p)
 	}
 	c.cond.Broadcast()
+	if h := c.AfterWrite; h != nil {
+		// called without the lock: the harness may let other traffic reach this connection right now, i.e. between
+		// this write and the writer's next one
+		c.mu.Unlock()
+		h(c.Writes)
+		c.mu.Lock()
+	}
 	return len(p), nil
 }
 
